@@ -1,6 +1,7 @@
 /-
   Six-digit tokens and the token-level export/import round trip.
 -/
+import LpModel.C20
 import LpProofs.C20.Dec
 namespace Lp.C20
 open Lp.Dec
